@@ -250,9 +250,13 @@ def rule_X2(ctx, entries=None):
                     handlers[id(contained[1])] = contained
                     res.holds(inst, "caught in %s" % contained[0].qualname)
                 else:
+                    # keyed by function and kind of primitive, not by the expression: which
+                    # expression of a function escapes changes with every refactoring of it
+                    con = "uncontained evaluation" if p.kind == "evaluate" else \
+                        "uncontained raise on an evaluated value"
                     res.violated(inst, Finding(
-                        "X2", p.func.file, p.func.qualname, norm_src(p.node),
-                        "%s can raise %s and no frame on the call chain from %s catches it: the "
+                        "X2", p.func.file, p.func.qualname, con,
+                        norm_src(p.node) + ": %s can raise %s and no frame on the call chain from %s catches it: the "
                         "exception escapes the API call, nothing is recorded and the workflow "
                         "keeps its status" % (p.what, sorted(p.raised - {"Exception", "BaseException"})[:2],
                                               entry.split(".", 1)[1]),
@@ -286,12 +290,12 @@ def rule_X3(ctx):
     if gnt is not None:
         fg = FuncGuards(prog, gnt)
         flags = set()
-        for n in ast.walk(gnt.node):
-            if isinstance(n, ast.ExceptHandler):
-                for s_ in n.body:
-                    if isinstance(s_, ast.Assign) and isinstance(s_.value, ast.Constant) and \
-                            s_.value.value is True:
-                        flags |= {t.id for t in s_.targets if isinstance(t, ast.Name)}
+        from sa.effects import error_only
+        for s_ in ast.walk(gnt.node):
+            if isinstance(s_, ast.Assign) and isinstance(s_.value, ast.Constant) and \
+                    s_.value.value is True and error_only(gnt, fg, s_):
+                flags |= {t.id for t in s_.targets if isinstance(t, ast.Name)
+                          and not t.id.endswith("__done")}
         for n in ast.walk(gnt.node):
             if isinstance(n, ast.Return) and flags:
                 atoms = fg.atoms(n)
@@ -352,10 +356,33 @@ def _check_handler(prog, res, f, h, seen):
         flags = [t.id for s in h.body if isinstance(s, ast.Assign) and isinstance(
             s.value, ast.Constant) and s.value.value is True for t in s.targets
                  if isinstance(t, ast.Name)]
+        # a flag raised outside the handler but only when the handler ran (the handler
+        # produced a None / False sentinel that is tested afterwards)
+        from sa.effects import error_only
+        fg_h = FuncGuards(prog, f)
+        for s_ in ast.walk(f.node):
+            if isinstance(s_, ast.Assign) and isinstance(s_.value, ast.Constant) and \
+                    s_.value.value is True and not fg_h.enclosing_handlers(s_) and \
+                    error_only(f, fg_h, s_):
+                flags += [t.id for t in s_.targets if isinstance(t, ast.Name)
+                          and not t.id.endswith("__done")]
         for n in ast.walk(f.node):
             if isinstance(n, ast.If) and isinstance(n.test, ast.Name) and n.test.id in flags:
                 if _requests_failed(prog, f, n.body) and terminates(n.body):
                     fails = True
+    if not (logs and fails) and h.name:
+        # collector idiom: the handler puts the exception into a list that is consumed later
+        # by 'if <errors>: log_errors(...); request failed'
+        for st in h.body:
+            tgts = []
+            if isinstance(st, ast.Assign) and any(
+                    isinstance(x, ast.Name) and x.id == h.name for x in ast.walk(st.value)) \
+                    and isinstance(st.value, (ast.List, ast.Tuple)):
+                tgts = [t.id for t in st.targets if isinstance(t, ast.Name)]
+            for tg in tgts:
+                ok_c, _why = _errors_consumed(prog, f, tg, h)
+                if ok_c:
+                    logs = fails = True
     if logs and fails:
         res.holds(inst)
     else:
@@ -466,8 +493,19 @@ def _errors_consumed(prog, f, name, after):
                     in_loop = True
                 p_ = getattr(p_, "_parent", None)
             if logs and fails and in_loop and not terminates(n.body):
-                return False, "'if %s:' does not leave the iteration (continue): the failed " \
-                              "transition is still processed" % n.test.id
+                # the iteration goes on: then whatever stages the next task later in the loop
+                # must be excluded for a failed transition by a guard on the error list
+                loop_ = getattr(n, "_parent", None)
+                while loop_ is not None and not isinstance(loop_, (ast.For, ast.While)):
+                    loop_ = getattr(loop_, "_parent", None)
+                fg_ = FuncGuards(prog, f)
+                later = [c for c in _calls([loop_]) if callee_name(c) == "add_staged_task"
+                         and textually_before(n, c)]
+                unguarded = [c for c in later if not any(
+                    a[0] == "falsy" and a[1] in derived for a in fg_.atoms(c))]
+                if unguarded or not later:
+                    return False, "'if %s:' does not leave the iteration (continue): the " \
+                                  "failed transition is still processed" % n.test.id
             if logs and fails:
                 return True, "consumed by 'if %s:'" % n.test.id
             return False, ("'if %s:' does not log" % n.test.id) if not logs else (
@@ -663,3 +701,67 @@ def _wrapped(prog, f, fg, call):
     if not catch_all:
         return False, "is in a try without a catch-all handler"
     return True, ""
+
+
+# ====================================================================== X4
+SAFE_OUTSIDE_TRY = ("append", "len", "isinstance", "bool", "log_error", "log_errors",
+                    "request_workflow_status", "get", "sorted", "list")
+
+
+def rule_X4(ctx):
+    """Everything get_next_tasks does to render an offer happens inside the catch-all try of
+    the rendering loop.  Outside it the loop only keeps books (tests on the rendered task,
+    appending the offer, raising the failure flag, continue).  Work on the rendered task
+    outside the try - window arithmetic on a non-integer concurrency, item bookkeeping on a
+    missing entry - raises a raw exception out of get_next_tasks instead of being logged and
+    failing the workflow."""
+    res = RuleResult("X4", "in the rendering loop of get_next_tasks no work on the rendered task "
+                           "happens outside the catch-all try")
+    prog = ctx.prog
+    f = prog.function("conducting.WorkflowConductor.get_next_tasks")
+    loops = [n for n in ast.walk(f.node) if isinstance(n, ast.For)
+             and any(callee_name(c) == "get_task" for c in _calls([n]))]
+    # the outermost such loop
+    loops = [lp for lp in loops if not any(lp is not o and any(lp is x for x in ast.walk(o))
+                                           for o in loops)]
+    if not loops:
+        raise AnalysisError("get_next_tasks: rendering loop not found")
+    for lp in loops:
+        tries = [t for t in ast.walk(lp) if isinstance(t, ast.Try) and any(
+            h.type is None or (isinstance(h.type, ast.Name) and h.type.id in (
+                "Exception", "BaseException")) for h in t.handlers)]
+        inst0 = (f.qualname, "catch-all try in the rendering loop")
+        if not tries:
+            res.violated(inst0, Finding(
+                "X4", f.file, f.qualname, "rendering loop without a catch-all try",
+                "the rendering loop of get_next_tasks has no try with a catch-all handler",
+                line=lp.lineno))
+            continue
+        res.holds(inst0)
+        inside = set()
+        for t in tries:
+            for x in ast.walk(t):
+                inside.add(id(x))
+        for c in _calls(lp.body):
+            if id(c) in inside:
+                continue
+            cn = callee_name(c) or "?"
+            inst = (f.qualname, norm_src(c))
+            if cn in SAFE_OUTSIDE_TRY:
+                res.holds(inst, "bookkeeping")
+            else:
+                res.violated(inst, Finding(
+                    "X4", f.file, f.qualname, "outside the try: " + norm_src(c),
+                    "%s is called in the rendering loop outside the catch-all try: a failure "
+                    "there (e.g. a rendered concurrency that is not an integer) leaves "
+                    "get_next_tasks as a raw exception instead of being logged and failing the "
+                    "workflow" % unparse(c.func), line=c.lineno))
+        # subscript arithmetic outside the try on the rendered task
+        for n in ast.walk(ast.Module(body=lp.body, type_ignores=[])):
+            if isinstance(n, ast.BinOp) and id(n) not in inside and isinstance(
+                    n.op, (ast.Sub, ast.Add, ast.Mult)) and any(
+                    isinstance(x, ast.Subscript) for x in ast.walk(n)):
+                res.violated((f.qualname, norm_src(n)), Finding(
+                    "X4", f.file, f.qualname, "arithmetic outside the try: " + norm_src(n),
+                    "arithmetic on the rendered task outside the catch-all try", line=n.lineno))
+    return res
